@@ -8,6 +8,11 @@ use std::{
 };
 use walkdir::WalkDir;
 
+#[cfg(lbfs_torrent_bootstrap_verif)]
+fn entry_metadata(entry: &walkdir::DirEntry) -> std::io::Result<std::fs::Metadata> { crate::verif_shim::fs::entry_metadata(entry) }
+#[cfg(not(lbfs_torrent_bootstrap_verif))]
+fn entry_metadata(entry: &walkdir::DirEntry) -> walkdir::Result<std::fs::Metadata> { entry.metadata() }
+
 use crate::{get_sha1_hexdigest, Torrent};
 use crate::File as TorrentFile;
 
@@ -36,9 +41,9 @@ impl FileCache {
             }
     
             let result = result.unwrap();
-            let metadata = result.metadata();
+            let metadata = entry_metadata(&result);
     
-            if let Err(e) = result.metadata() {
+            if let Err(e) = entry_metadata(&result) {
                 eprintln!("Encountered error while reading metadata: {}", e);
                 continue;
             }
